@@ -265,12 +265,36 @@ def worker(spec, out):
         if d <= 0 or t < 0.45:
             if rnd.random() < 0.5:
                 return rnd.choice([0, 1, -1, 42, -7, 10**20, -(10**12)])
-            return rnd.choice(TRICKY) if rnd.random() < 0.6 else bytes(rnd.getrandbits(8) for _ in range(rnd.randint(0, 12)))
+            t2 = rnd.random()
+            if t2 < 0.3:
+                # text values: strings are UTF-8 encoded on the wire (the length prefix counts bytes, not characters);
+                # keywords and symbols travel as "ns/name" strings
+                s_ = rnd.choice(BSTRS) if rnd.random() < 0.7 else "".join(rnd.choice("a:e1\u00e9\u4e2d\U0001F600 ") for _ in range(rnd.randint(0, 6)))
+                t3 = rnd.random()
+                if t3 < 0.6 or not s_.strip() or any(ch in s_ for ch in " :/"):
+                    return s_
+                nsp = rnd.choice([None, "n", "n\u00e9"])
+                return b.kw.keyword(s_, ns=nsp) if t3 < 0.8 else b.sym.symbol(s_, ns=nsp)
+            return rnd.choice(TRICKY) if t2 < 0.7 else bytes(rnd.getrandbits(8) for _ in range(rnd.randint(0, 12)))
         n = rnd.randint(0, 3)
         if t < 0.75:
             return V([rbval(d - 1) for _ in range(n)])
         # the encoder takes string/keyword/symbol keys (its documented domain); they are byte strings on the wire and after decoding
-        return M({rnd.choice([t.decode("ascii") for t in TRICKY[2:12]] + ["k%d" % i for i in range(4)]): rbval(d - 1) for _ in range(n)})
+        keys = {}
+        for _ in range(n):
+            k = rnd.choice([t.decode("ascii") for t in TRICKY[2:12]] + ["k%d" % i for i in range(4)] + ["\u00e9", "k\u4e2d", "\U0001F600x"])
+            if rnd.random() < 0.25 and not any(ch in k for ch in " :/"):
+                k = b.kw.keyword(k, ns=rnd.choice([None, "n"])) if rnd.random() < 0.7 else b.sym.symbol(k)
+            keys.setdefault(wire(k), k)     # keys that coincide on the wire would be one entry after decoding
+        return M({k: rbval(d - 1) for k in keys.values()})
+
+    BSTRS = ["", "a", "\u00e9", "\u4e2d", "\U0001F600", "a\u00e9", "\u00e9a", "3:\u00e9", "i1e", "\u00e9\u00e9\u00e9", "na\u00efve caf\u00e9", "\x00", "\x7f\x80"]
+
+    def wire(x):
+        """bytes a text value becomes on the wire"""
+        if isinstance(x, (b.kw.Keyword, b.sym.Symbol)):
+            return ((x.ns + "/") if x.ns else "").encode("utf-8") + x.name.encode("utf-8")
+        return x.encode("utf-8")
 
     def bdiff(a, c):
         if isinstance(a, bool) or isinstance(c, bool):
@@ -279,13 +303,15 @@ def worker(spec, out):
             return a != c
         if isinstance(a, bytes) and isinstance(c, bytes):
             return a != c
+        if isinstance(a, (str, b.kw.Keyword, b.sym.Symbol)) and not isinstance(a, bytes):
+            return not isinstance(c, bytes) or wire(a) != c
         if kind(a) == "vector" and kind(c) == "vector":
             return len(a) != len(c) or any(bdiff(x, y) for x, y in zip(a, c))
         if kind(a) == "map" and kind(c) == "map":
             if len(a) != len(c):
                 return True
             for k, v in a.items():
-                kb = k.encode("utf-8") if isinstance(k, str) else k
+                kb = wire(k) if not isinstance(k, bytes) else k
                 if not c.contains(kb) or bdiff(v, c.val_at(kb)):
                     return True
             return False
